@@ -54,6 +54,9 @@ def ask(line):
 # ---------------------------------------------------------------------------
 # decoding (real from_frame) and canonical forms
 
+DECODE_FAILURES = []
+
+
 class Decoder:
     def __init__(self, ids, dev_inst_map=None):
         self.ids = ids
@@ -64,8 +67,15 @@ class Decoder:
         from dali import command, frame
         k = (bits, data, dt)
         if k not in self.cache:
-            self.cache[k] = command.from_frame(frame.ForwardFrame(bits, data), devicetype=dt,
-                                               dev_inst_map=self.map)
+            try:
+                self.cache[k] = command.from_frame(frame.ForwardFrame(bits, data), devicetype=dt,
+                                                   dev_inst_map=self.map)
+            except Exception as e:  # noqa
+                # "decoded in context": decoding an observed frame never fails (C01).  Kept for correspond() to
+                # report with the frame; the history goes on with the generic command the library returns for
+                # frames it does not know, so that what the DRIVER does with such a frame is still observed
+                DECODE_FAILURES.append((bits, data, dt, type(e).__name__))
+                self.cache[k] = command.Command(frame.ForwardFrame(bits, data))
         return self.cache[k]
 
     def info(self, bits, data, dt):
@@ -500,6 +510,12 @@ def check_history(ctx, corr, ids, script, dev_inst_map, timeout_s, label):
         if cur == "unknown":
             real_state = mstate_cmp          # the task keeps its memory somewhere this harness cannot see
             corr.bump("watch-state-not-visible")
+        elif cur == "dead":
+            real_state = "the bus-watch task has ended"
+            corr.violate("watch:task-dead", {"history": pretty, "observed_until": name},
+                         "the bus-watch task runs as long as the driver is connected", "it ended (an exception "
+                         "escaped it): no frame observed from now on will ever be reported",
+                         "observed traffic must be reported for the whole session")
         else:
             real_state = "cur=%s dt=%s" % ("-" if cur is None else "%d.%d" % cur, dt)
         if want_m != reports or mstate_cmp != real_state:
@@ -965,6 +981,71 @@ def fixed_histories(al):
     return hs
 
 
+async def run_two_buses(loop, script):
+    """two Tridonic interfaces (two DALI lines) in one process; `script` = list of (line, step); each line's
+    subscriber must see exactly what was observed on ITS line - a driver is an instance of the one-driver model,
+    nothing is shared between instances"""
+    hub = sim.OSHub()
+    ts = [await sim.TriSim(hub=hub).start(), await sim.TriSim(hub=hub).start()]
+    seen = [[], []]
+    for i in (0, 1):
+        def cb(drv, command, response, err, _i=i):
+            seen[_i].append(canon_real_report(command, response, err))
+        ts[i].d.bus_traffic.register(cb)
+    for group in script:
+        for line, step in group:           # the steps of one group arrive in the same turn of the event loop
+            ts[line].fos.inq.append(bytes(raw_of(step)))
+        for line in sorted({l for l, _ in group}):
+            loop.call_soon(ts[line].d._reader)
+        await sim.settle(4)
+        await asyncio.sleep(0.25)          # let every pending transaction time out
+        await sim.settle(4)
+    return seen
+
+
+def two_buses_suite(ctx, corr, ids, spec_timeout_s):
+    """(strengthening after seeded round 6)  The single-line expectation comes from the same machinery as
+    everywhere else: each line's own history is run on a driver of its own and must give the same reports."""
+    rng = ctx.rng
+    n = 0
+    for _ in range(60 if ctx.thorough else 20):
+        script = []
+        per_line = [[], []]
+        for _g in range(rng.randrange(1, 5)):
+            group = []
+            for line in rng.sample([0, 1], rng.choice([1, 2, 2])):
+                kind = rng.random()
+                if kind < 0.6:
+                    step = ("fwd", 16, rng.choice([0x0190, 0x01A0, 0xFE80, 0x0300 | rng.randrange(256), 0xC108]))
+                elif kind < 0.8:
+                    step = ("back", rng.randrange(256))
+                else:
+                    step = ("fwd", 24, rng.randrange(1 << 24))
+                group.append((line, step))
+                per_line[line].append(step)
+            script.append(group)
+        both = sim.run(run_two_buses, script)
+
+        async def alone(loop, steps):
+            ts = await sim.TriSim().start()
+            out = []
+            ts.d.bus_traffic.register(lambda drv, c, r, e: out.append(canon_real_report(c, r, e)))
+            for st in steps:
+                ts.deliver(raw_of(st))
+                await sim.settle(4)
+                await asyncio.sleep(0.25)
+                await sim.settle(4)
+            return out
+        for line in (0, 1):
+            want = sim.run(alone, per_line[line])
+            if both[line] != want:
+                corr.violate("watch:two-drivers", {"line": line, "script (groups arrive in one loop turn)": script},
+                             [str(x) for x in want], [str(x) for x in both[line]],
+                             "a driver's subscribers see exactly the traffic of its own line")
+        n += 1
+    corr.count("two_tridonic_lines", n)
+
+
 def correspond(ctx, corr):
     import logging
     logging.disable(logging.CRITICAL)
@@ -1006,6 +1087,16 @@ def correspond(ctx, corr):
     serial_suite(ctx, corr, ids, al)
     registry_suite(ctx, corr, ids)
     no_subscriber_suite(ctx, corr, ids)
+    two_buses_suite(ctx, corr, ids, None)
+    seen = set()
+    for bits, data, dt, err in DECODE_FAILURES:
+        if (bits, dt, err) in seen:
+            continue
+        seen.add((bits, dt, err))
+        corr.violate("watch:decode", {"observed frame": "%d bits, value %#x" % (bits, data),
+                                      "device type remembered from the preceding EnableDeviceType": dt},
+                     "a command object (a generic one for a frame the library does not know)", "raises " + err,
+                     "decoding an observed frame in its context must not fail")
 
 
 def check_history_raw(ctx, corr, ids, script, timeout_s):
